@@ -43,7 +43,7 @@ add("C05", "fault_enumeration",
     "deterministic simulation: block-tree delivery schedules + crash-after-every-store-write enumeration + restart")
 
 add("C06", "exploration",
-    "invariant monitor over a closed address universe while seeded value-heavy transactions (multi-target transfers failing part-way, weird amounts, fees without balance, contract create/call with value into forwarding / reverting / gas-burning / self-destructing programs, gas limits around the intrinsic cost, miner stake lock and refund escrow) are executed one per block (mostly) by the real block executor on successive committed states, at plan-chosen heights (escrow release), under seeded map order: sum(after) - sum(before) = released escrow - stake locked - self-destructed-to-self; every balance in [0, 2^256); failed transactions leave the sum unchanged; an accepted stake refund moves exactly what leaves the miner's recorded stake into the escrow of its release height. Sampling, not proof.",
+    "invariant monitor over a closed address universe while seeded value-heavy transactions (multi-target transfers failing part-way, weird amounts, fees without balance, contract create/call with value into forwarding / reverting / gas-burning / self-destructing programs, gas limits around the intrinsic cost, miner stake lock and refund escrow) are executed one per block (mostly) by the real block executor on successive committed states, at plan-chosen heights (escrow release), under seeded map order: sum(after) - sum(before) = released escrow - stake locked - self-destructed-to-self; every balance in [0, 2^256); failed transactions leave the sum unchanged; an accepted stake refund moves exactly what leaves the miner's recorded stake into the escrow of its release height. Stake-opcode plans (6%): a contract that is the account of a registered validator executes STAKE / UNSTAKE / UNSTAKEALL with seeded operands (whole tokens, fractions, 1 wei, amounts that dismiss the miner), one per block, with jumps to the release heights: balances + recorded stake + escrow of the release heights must stay constant. Sampling, not proof.",
     "trusted: closed universe (targets, created contracts, beneficiaries are added as they appear), released escrow read from the escrow entries before the block, stub ConsensusHelper",
     "deterministic simulation: value-movement histories with gas-starvation faults + conservation monitor")
 
